@@ -173,9 +173,18 @@ class C14(Check):
                 ["pixee:python/url-sandbox", "pixee:python/use-defusedxml"],
                 ["pixee:python/harden-pickle-load", "pixee:python/url-sandbox", "pixee:python/use-defusedxml"],
                 ["pixee:python/use-defusedxml", "pixee:python/flask-enable-csrf-protection"]]
+        for mn in ("setupcfg-inline-single", "setupcfg-inline"):
+            files = []
+            for ci, cid in enumerate(seqs[0][:2]):
+                rr = G.pick_snippet(random.Random(f"c14-inline-{ci}"), cid)
+                files.append({"path": f"pkg/m{ci}.py", "snippets": [rr["idx"]], "layout": {}})
+            files.append({"path": "setup.cfg", "manifest": names[mn]["idx"]})
+            exps.append({"kind": "sequence", "include": seqs[0][:2], "files": files, "enum_seeds": [None, None], "faults": "none",
+                         "sched": {"seed": 0, "policy": "fifo", "line_p": 0.0}})
         for si, seq in enumerate(seqs):
             for mn in ("req-plain", "req-has-security", "pyproject-project-deps", "pyproject-has-security", "setuppy-has-security",
-                       "setupcfg-has-security", "setupcfg-multiline", "req-has-defusedxml-other-version"):
+                       "setupcfg-has-security", "setupcfg-multiline", "req-has-defusedxml-other-version", "setupcfg-inline",
+                       "setupcfg-inline-single", "setuppy-inline", "pyproject-inline-deps", "pyproject-poetry"):
                 files = []
                 for ci, cid in enumerate(seq):
                     rr = G.pick_snippet(random.Random(f"c14-seq-{si}-{ci}"), cid)
